@@ -11,6 +11,7 @@ import (
 
 func init() {
 	VerifHarnesses["H_C11_after_any_call"] = H_C11_after_any_call
+	VerifHarnesses["H_C11_handles"] = H_C11_handles
 }
 
 type vdS2 struct {
@@ -76,5 +77,41 @@ func H_C11_after_any_call(t *verifrt.T) {
 		var v interface{}
 		err := Unmarshal([]byte(`x`), &v)
 		t.Assert("invalid-still-rejected", err != nil)
+	}
+}
+
+// Per-call options on long-lived handles: an option passed to ONE call of a
+// Decoder / Encoder must not change what later calls without the option return.
+func H_C11_handles(t *verifrt.T) {
+	d0, d1 := t.Byte("d0"), t.Byte("d1")
+	t.Assume(verifrt.And(d0 >= '1', d0 <= '9', d1 >= '1', d1 <= '9', d0 != d1))
+	switch t.Choice("handle", 2) {
+	case 0:
+		// two documents with a duplicate key on one Decoder; the first call asks for first-win
+		doc := []byte(`{"a":1,"a":2} {"a":`)
+		doc = append(doc, d0)
+		doc = append(doc, `,"a":`...)
+		doc = append(doc, d1)
+		doc = append(doc, '}')
+		dec := NewDecoder(bytes.NewReader(doc))
+		var v1, v2 vdS2
+		err1 := dec.DecodeWithOption(&v1, DecodeFieldPriorityFirstWin())
+		err2 := dec.Decode(&v2)
+		t.Assert("both-decoded", verifrt.And(err1 == nil, err2 == nil))
+		t.Assert("first-call-honours-its-option", v1.A == 1)
+		t.Assert("second-call-has-default-semantics", v2.A == int(d1-'0'))
+	case 1:
+		// Encoder: an indent/escape option given to one EncodeWithOption call
+		var w bytes.Buffer
+		enc := NewEncoder(&w)
+		v := &vtInner{X: int(d0 - '0'), Y: "<"}
+		err1 := enc.EncodeWithOption(v, DisableHTMLEscape())
+		n1 := w.Len()
+		err2 := enc.Encode(v)
+		t.Assert("both-encoded", verifrt.And(err1 == nil, err2 == nil))
+		want, _ := Marshal(v)
+		got := w.Bytes()[n1:]
+		same := verifref.BytesEq(got, append(append([]byte{}, want...), '\n'))
+		t.Assert("second-encode-equals-marshal", same)
 	}
 }
